@@ -29,6 +29,18 @@ var (
 		Text: "REC.1: VM.Run is called only inside a goroutine whose first statement defers a recover handler that sends on the result channel on every arm and never re-panics; the channel is local. REC.2: every path after the go statement receives the answer before returning; no select default"}
 	rABORT = &Rule{Name: "ABORT", Floor: 12, Fn: ruleABORT,
 		Text: "ABORT.1 the abort flag is accessed only through sync/atomic; ABORT.2 it is polled in the dispatch loop condition and nothing inside the dispatch function can spin or recurse without returning to it; ABORT.3 on ctx.Done: Abort() then drain, result ctx.Err(); ABORT.4 a fresh VM per run; ABORT.5 the flag is cleared only after the dispatch loop returned"}
+	rALLOC1 = &Rule{Name: "ALLOC.1", Floor: 40, Fn: ruleALLOC1,
+		Text: "allocation counter typestate: written only by the reset `maxAllocs+1` in Run and by `--` in the dispatch function, read only in `== 0` guards; every `--` is immediately followed by the guard that stores ErrObjectAllocLimit and returns; at most one count per dispatched instruction"}
+	rALLOC2 = &Rule{Name: "ALLOC.2", Floor: 20, Fn: ruleALLOC2,
+		Text: "every object a VM arm creates (composite literal of an Object type, or result of BinaryOp/Call/Iterate) is followed by a counter decrement on every path that completes the instruction (error returns excepted); ObjectPtr cells and IndexGet/Key/Value are tabled as not counted by design"}
+	rLIMIT1 = &Rule{Name: "LIMIT.1", Floor: 18, Fn: ruleLIMIT1,
+		Text: "every String/Bytes constructor site in package tengo is either bounded by construction (single existing value: copy, sub-slice, identity; or a tabled source) or dominated by a comparison with MaxStringLen/MaxBytesLen that measures every operand contributing to its length"}
+	rLIMIT2 = &Rule{Name: "LIMIT.2", Floor: 6, Fn: ruleLIMIT2,
+		Text: "the formatter's output buffer (type fmtbuf) is stored to only after a dominating comparison with MaxStringLen that raises ErrStringLimit"}
+	rLIMIT3 = &Rule{Name: "LIMIT.3", Floor: 2, Fn: ruleLIMIT3,
+		Text: "string literals and map keys are compared with MaxStringLen before they enter the constant pool"}
+	rFRAMES1 = &Rule{Name: "FRAMES.1", Floor: 2, Fn: ruleFRAMES1,
+		Text: "every frame push in the dispatch function is dominated by `framesIndex >= MaxFrames` reporting ErrStackOverflow; the frames array has MaxFrames slots"}
 )
 
 func allProperties() []*Property {
@@ -49,6 +61,10 @@ func allProperties() []*Property {
 			Decided:    "the structure that turns any ordinary panic of the VM goroutine into a returned error, waits for that goroutine, and releases the lock by defer on every exit.",
 			NotDecided: "which run-time faults a script can provoke; faults recover() cannot catch are only partly covered (thorough).",
 			Rules:      []*Rule{rREC, rLOCK}},
+		{ID: "C06",
+			Decided:    "count-then-check at every allocation site with a count-down counter read only against zero; every object the VM creates is counted; every String/Bytes producer in package tengo is guarded or bounded by construction; formatter output grows only behind the limit check; frame pushes are guarded.",
+			NotDecided: "the numbers as run-time facts (exactly N allocations, results unchanged when N grows); allocation inside Go library calls; stdlib-module producers.",
+			Rules:      []*Rule{rALLOC1, rALLOC2, rLIMIT1, rLIMIT2, rLIMIT3, rFRAMES1}},
 		{ID: "C07",
 			Decided:    "atomic abort flag polled once per instruction, abort-then-drain on cancellation, fresh VM per run, lock released by defer.",
 			NotDecided: "the delay bound, goroutine counts and results of later runs as run-time facts.",
